@@ -222,6 +222,47 @@ void wide(char const* desc, int kid)
 }  // namespace c10
 
 namespace c10 {
+// wide_integer combined with a built-in integer operand, both orders:  M <kid> <op> <order> <a_hex> <b_dec> <KIND> <r_hex> <r_bits> <r_signed>
+template<class W, class B>
+void wide_mixed(char const* desc, int kid)
+{
+    using namespace vf;
+    if (!kernel_selected(desc)) return;
+    g.cur_kernel = desc;
+    Rng rng(mix(env_seed(), hash_str(desc)));
+    printf("{\"t\":\"kd\",\"id\":%d,\"k\":\"%s\",\"digits\":%d,\"signed\":%d,\"bits\":%d,\"multiword\":%d,\"bsigned\":%d,\"bbits\":%d}\n", kid, desc, (int)cnl::digits_v<W>, (int)cnl::numbers::signedness_v<W>, storage_bits<W>(),
+           (int)multiword<W>, (int)is_sgn<B>, (int)sizeof(B) * 8);
+    auto ops = operands<W>(rng, 30);
+    std::vector<B> bs;
+    for (B b : lattice<B>()) {
+        u128 m = b < 0 ? (u128)0 - (u128)(i128)b : (u128)b;
+        if (m <= 12 || (m & (m + 1)) == 0 || (m & (m - 1)) == 0 || b == tmin<B>() || b == tmax<B>()) bs.push_back(b);
+    }
+    for (int i = 0; i < 12; ++i) bs.push_back(rand_val<B>(rng));
+    auto emit = [&](char const* op, int order, W const& a, B b, auto&& f) {
+        using R = std::remove_cvref_t<decltype(f())>;
+        R r{};
+        Outcome o = guarded([&] { r = f(); });
+        if constexpr (std::is_same_v<R, bool>)
+            printf("M %d %s %d %s %s %s %d 1 0\n", kid, op, order, hex(a).c_str(), istr(b).c_str(), kind_name(o.kind), (int)r);
+        else
+            printf("M %d %s %d %s %s %s %s %d %d\n", kid, op, order, hex(a).c_str(), istr(b).c_str(), kind_name(o.kind), o.kind == VALUE ? hex(r).c_str() : "-", storage_bits<R>(), (int)cnl::numbers::signedness_v<R>);
+    };
+    size_t n = std::min<size_t>(ops.size(), 120);
+    for (size_t i = 0; i < n; ++i) {
+        W a = make<W>(ops[i < 60 ? i : rng.below(ops.size())]);
+        // values above the declared digits are outside numeric_limits: operands are kept inside
+        for (B b : bs) {
+            emit("+", 0, a, b, [&] { return a + b; });  emit("+", 1, a, b, [&] { return b + a; });
+            emit("-", 0, a, b, [&] { return a - b; });  emit("-", 1, a, b, [&] { return b - a; });
+            emit("*", 0, a, b, [&] { return a * b; });  emit("*", 1, a, b, [&] { return b * a; });
+            if (b != 0) { emit("/", 0, a, b, [&] { return a / b; }); emit("%", 0, a, b, [&] { return a % b; }); }
+        }
+    }
+    fflush(stdout);
+    g.cur_kernel = "";
+}
+
 // cross-type comparison of two wide_integer types (C03, wide part):  C <kid> <op> <a_hex> <b_hex> <KIND> <0|1>
 template<class W1, class W2>
 void wide_cmp(char const* desc, int kid)
